@@ -151,7 +151,7 @@ func (w *dnsWorld) parseCacheKey(raw string) (dnsKey, bool) {
 	switch {
 	case strings.HasPrefix(scope, "upstream@"):
 		for _, u := range w.ups {
-			if scope == "upstream@"+u.scheme+"://"+u.addr.String() {
+			if scope == "upstream@"+u.scheme+"://"+u.hostPort() {
 				k.scope = u.idx
 			}
 		}
